@@ -178,7 +178,8 @@ def make_droplet(d):
         return cls(pos, d["radius"])
     if d["cls"] == "DiffuseDroplet":
         return cls(pos, d["radius"], interface_width=d["width"])
-    return cls(pos, d["radius"], interface_width=d["width"], amplitudes=np.asarray(d["amps"], float))
+    amps = np.asarray(d["amps"], float) if d["amps"] else None  # no amplitudes <=> zero modes
+    return cls(pos, d["radius"], interface_width=d["width"], amplitudes=amps)
 
 
 def interface_and_distance(grid, spec, d):
